@@ -74,6 +74,15 @@ Definition line_num_out_of_range_stmt : Prop :=
   forall text c off, cache_of text = Done c -> byte_len text < off ->
     byte_to_line_num c off = Done None.
 
+(* byte_to_line_byte: the start of the line containing the offset *)
+Definition line_byte_spec_stmt : Prop :=
+  forall text c off, cache_of text = Done c -> off <= byte_len text ->
+    exists st, byte_to_line_byte c off = Done (Some st) /\ line_start_spec text off st.
+
+Definition line_byte_out_of_range_stmt : Prop :=
+  forall text c off, cache_of text = Done c -> byte_len text < off ->
+    byte_to_line_byte c off = Done None.
+
 Definition line_col_spec_stmt : Prop :=
   forall text c off, cache_of text = Done c -> boundary text off ->
     exists st, line_start_spec text off st /\
